@@ -301,6 +301,7 @@ package memory
 // metadata's own Serialize/Deserialize, which are outside the contract.
 //@ func store.GetMetadata
 //@   requires sshape(s) && md != nil
+//@   modifies every metadata.Persist.Value, every metadata.LastAccessTime.Time
 //@   ensures missing: !(key in s.blobs) ==> !result0 && result1 != nil
 //@   ensures out_of_scope: (key in s.blobs) && !inscope(s.blobs[key], scope) ==> !result0 && result1 != nil
 //@   ensures absent: (key in s.blobs) && inscope(s.blobs[key], scope) && !(md_suffix(md) in s.blobs[key].metadatas) ==> !result0 && result1 == nil
